@@ -1,4 +1,4 @@
--- PINNED by bin/pin_tables: copy of Gen/Coerce.lean as generated from /repo at fa9375c — regenerate, do not edit
+-- PINNED by bin/pin_tables: copy of Gen/Coerce.lean as generated from /repo at eabc17a — regenerate, do not edit
 import Ggql.Model.Coerce
 namespace Ggql.Pinned
 open Ggql.Coerce
@@ -18,13 +18,13 @@ def coerceInFloat : Table :=
   { arms := [(.f32, .convStrict .f32), (.f64, .convStrict .f32), (.i32, .conv .f32), (.i64, .conv .f32), (.nil, .asIs)],
     dflt := .failNil, formatTime := false }
 def coerceOutFloat : Table :=
-  { arms := [(.f32, .asIs), (.f64, .conv .f32), (.i16, .conv .f32), (.i32, .conv .f32), (.i64, .conv .f32), (.i8, .conv .f32), (.int, .conv .f32), (.nil, .asIs), (.str, .parseFloatKeep .f32), (.u16, .conv .f32), (.u32, .conv .f32), (.u64, .conv .f32), (.u8, .conv .f32), (.uint, .conv .f32)],
+  { arms := [(.f32, .convStrict .f32), (.f64, .convStrict .f32), (.i16, .conv .f32), (.i32, .conv .f32), (.i64, .conv .f32), (.i8, .conv .f32), (.int, .conv .f32), (.nil, .asIs), (.str, .parseFloatFinite .f32), (.u16, .conv .f32), (.u32, .conv .f32), (.u64, .conv .f32), (.u8, .conv .f32), (.uint, .conv .f32)],
     dflt := .failNil, formatTime := false }
 def coerceInFloat64 : Table :=
-  { arms := [(.f32, .convStrict .f64), (.f64, .convStrict .f64), (.i32, .conv .f64), (.i64, .conv .f64), (.nil, .asIs), (.str, .parseFloatFinite)],
+  { arms := [(.f32, .convStrict .f64), (.f64, .convStrict .f64), (.i32, .conv .f64), (.i64, .conv .f64), (.nil, .asIs), (.str, .parseFloatFinite .f64)],
     dflt := .failNil, formatTime := false }
 def coerceOutFloat64 : Table :=
-  { arms := [(.f32, .conv .f64), (.f64, .asIs), (.i16, .conv .f64), (.i32, .conv .f64), (.i64, .conv .f64), (.i8, .conv .f64), (.int, .conv .f64), (.nil, .asIs), (.str, .parseFloatKeep .f64), (.u16, .conv .f64), (.u32, .conv .f64), (.u64, .conv .f64), (.u8, .conv .f64), (.uint, .conv .f64)],
+  { arms := [(.f32, .convStrict .f64), (.f64, .convStrict .f64), (.i16, .conv .f64), (.i32, .conv .f64), (.i64, .conv .f64), (.i8, .conv .f64), (.int, .conv .f64), (.nil, .asIs), (.str, .parseFloatFinite .f64), (.u16, .conv .f64), (.u32, .conv .f64), (.u64, .conv .f64), (.u8, .conv .f64), (.uint, .conv .f64)],
     dflt := .failNil, formatTime := false }
 def coerceInString : Table :=
   { arms := [(.nil, .asIs), (.str, .asIs)],
